@@ -110,125 +110,6 @@ pub(crate) mod k {
 }
 
 // ------------------------------------------------------------------------------------------
-// C18 / C02: fragments_to_node - root element and child list
-// ------------------------------------------------------------------------------------------
-#[cfg(kani)]
-pub(crate) mod k18 {
-    use super::*;
-    use crate::__verif::kg::*;
-    use sauron::vdom::{AttributeValue, Value};
-
-    /// opaque marker nodes standing for the style sheet, the defs and the fragment nodes
-    pub(crate) fn stub_style<MSG>(_settings: &Settings, _legend_css: String) -> Node<MSG> {
-        html::tags::style([], [])
-    }
-    pub(crate) fn stub_get_defs<MSG>() -> Node<MSG> {
-        defs([], [])
-    }
-    pub(crate) fn stub_tree_fragments_to_node<MSG>(_fragments: Vec<FragmentSpan>) -> Vec<Node<MSG>> {
-        vec![g([], [])]
-    }
-
-    fn settings(scale: f32, backdrop: bool, styles: bool, defs_: bool) -> Settings {
-        Settings {
-            font_size: 14,
-            font_family: String::new(),
-            fill_color: String::new(),
-            background: String::new(),
-            stroke_color: String::new(),
-            stroke_width: 2.0,
-            scale,
-            include_backdrop: backdrop,
-            include_styles: styles,
-            include_defs: defs_,
-        }
-    }
-
-    fn f32_attr(node: &Node<()>, name: &'static str) -> Option<f32> {
-        match node.first_value(&name) {
-            Some(Value::F32(v)) => Some(*v),
-            Some(Value::I32(v)) => Some(*v as f32),
-            _ => None,
-        }
-    }
-
-    fn str_attr_is(node: &Node<()>, name: &'static str, want: &str) -> bool {
-        match node.first_value(&name) {
-            Some(Value::Cow(s)) => str_eq_n::<32>(s.as_ref(), want),
-            _ => false,
-        }
-    }
-
-    fn tag_is(node: &Node<()>, want: &str) -> bool {
-        match node.tag() {
-            Some(t) => str_eq_n::<16>(t, want),
-            None => false,
-        }
-    }
-
-    #[kani::proof]
-    #[kani::unwind(34)]
-    #[kani::stub(crate::buffer::cell_buffer::CellBuffer::style, stub_style)]
-    #[kani::stub(crate::buffer::cell_buffer::CellBuffer::get_defs, stub_get_defs)]
-    #[kani::stub(crate::buffer::fragment_buffer::fragment_tree::FragmentTree::fragments_to_node, stub_tree_fragments_to_node)]
-    pub(crate) fn check_fragments_to_node_111() {
-        fragments_to_node_case(true, true, true);
-    }
-
-    #[kani::proof]
-    #[kani::unwind(34)]
-    #[kani::stub(crate::buffer::cell_buffer::CellBuffer::style, stub_style)]
-    #[kani::stub(crate::buffer::cell_buffer::CellBuffer::get_defs, stub_get_defs)]
-    #[kani::stub(crate::buffer::fragment_buffer::fragment_tree::FragmentTree::fragments_to_node, stub_tree_fragments_to_node)]
-    pub(crate) fn probe_fragments_to_node_len() {
-        let st = settings(8.0, true, true, true);
-        let node: Node<()> = CellBuffer::fragments_to_node(vec![], String::new(), &st, 1.0, 2.0);
-        assert!(node.children().len() == 4);
-        std::mem::forget(node);
-        std::mem::forget(st);
-    }
-
-    fn fragments_to_node_case(backdrop: bool, styles: bool, defs_: bool) {
-        let w: f32 = kani::any();
-        let h: f32 = kani::any();
-        kani::cover!(true);
-        let st = settings(8.0, backdrop, styles, defs_);
-        let node: Node<()> = CellBuffer::fragments_to_node(vec![], String::new(), &st, w, h);
-        // root element (C02 / C18)
-        assert!(tag_is(&node, "svg"), "root is svg");
-        assert!(str_attr_is(&node, "xmlns", "http://www.w3.org/2000/svg"), "SVG namespace");
-        assert!(str_attr_is(&node, "class", "svgbob"), "class svgbob");
-        assert!(f32_attr(&node, "width").map(|v| v.to_bits()) == Some(w.to_bits()), "width = w");
-        assert!(f32_attr(&node, "height").map(|v| v.to_bits()) == Some(h.to_bits()), "height = h");
-        assert!(node.attributes().map(|a| a.len()) == Some(4), "exactly four root attributes");
-        // children: [style]? [defs]? [backdrop]? fragment nodes
-        let ch = node.children();
-        let expect = styles as usize + defs_ as usize + backdrop as usize + 1;
-        assert!(ch.len() == expect, "each switch adds exactly its own element");
-        let mut i = 0;
-        if styles {
-            assert!(tag_is(&ch[i], "style"), "style first");
-            i += 1;
-        }
-        if defs_ {
-            assert!(tag_is(&ch[i], "defs"), "then defs");
-            i += 1;
-        }
-        if backdrop {
-            let b = &ch[i];
-            assert!(tag_is(b, "rect") && str_attr_is(b, "class", "backdrop"), "then the backdrop rect");
-            assert!(f32_attr(b, "x") == Some(0.0) && f32_attr(b, "y") == Some(0.0), "backdrop at the origin");
-            assert!(f32_attr(b, "width").map(|v| v.to_bits()) == Some(w.to_bits())
-                && f32_attr(b, "height").map(|v| v.to_bits()) == Some(h.to_bits()), "backdrop covers the canvas");
-            i += 1;
-        }
-        assert!(tag_is(&ch[i], "g"), "fragment nodes last");
-        std::mem::forget(node);
-        std::mem::forget(st);
-    }
-}
-
-// ------------------------------------------------------------------------------------------
 // bounded native stand-ins (sauron nodes, pom grammars, BTreeMap glue are beyond both verifiers)
 // ------------------------------------------------------------------------------------------
 #[cfg(all(svgbob_verif, test))]
